@@ -70,7 +70,7 @@ def main():
     U = 1048576
     est = {'SD': 8 * U, 'ND': 20 * U, 'k_1': 2 * U, 'TN': U, 'TS': U // 4}
     def trb(action, arg, n, gain=0):
-        return {'tau': 2, 'check_scatter': True, 'exact_slope': 0, 'lnL_gain_micro': 0, 'start': dict(est), 'events': [{'action': action, 'arg': arg, 'lnL_gain_micro': gain, 'obs': n}]}
+        return {'tau': 2, 'tauND': 2, 'check_scatter': True, 'exact_slope': 0, 'lnL_gain_micro': 0, 'start': dict(est), 'events': [{'action': action, 'arg': arg, 'lnL_gain_micro': gain, 'obs': n}]}
     cases = [('ScaleLoads(2) shifts SD by one unit', trb('ScaleLoads', 1, {**est, 'SD': 9 * U}), 'ok'),
              ('ScaleLoads(2) but SD unchanged', trb('ScaleLoads', 1, dict(est)), 'SD'),
              ('ScaleCycles(4) but slope changed', trb('ScaleCycles', 2, {**est, 'ND': 22 * U, 'k_1': 2 * U + 5}), 'k_1'),
